@@ -31,6 +31,7 @@ def main():
         return 10 if r['reproduced'] else 0
     from harness.common import Check, env_seed
     m = importlib.import_module('harness.' + modname[0])
+    os.environ['VERIF_TIER'] = a.tier
     chk = Check(pid, a.tier, env_seed())
     try:
         m.run(chk)
